@@ -58,11 +58,15 @@ def recheck(ids):
 def main():
     if sys.argv[1] == "--recheck":
         return recheck(sys.argv[2:])
-    pid = sys.argv[1].upper()
-    src = f"/tmp/seeded_out/{pid}"
+    arg = sys.argv[1].upper()
+    # "C06" = first round (/tmp/seeded_out/C06, filed as C06-1..3); "C06R2" = second round (/tmp/seeded_out/C06r2, filed as C06-4..6)
+    m = re.match(r"(C\d+)(?:R(\d+))?$", arg)
+    pid, rnd = m.group(1), int(m.group(2) or 1)
+    src = f"/tmp/seeded_out/{pid}" + (f"r{rnd}" if rnd > 1 else "")
+    off = 3 * (rnd - 1)
     ks = sys.argv[2:] or sorted(re.findall(r"patch(\d+)\.diff", " ".join(os.listdir(src))))
     skip_tests = os.environ.get("SEEDED_SKIP_TESTS") == "1"
-    wt = f"/tmp/wtv_{pid}"
+    wt = f"/tmp/wtv_{pid}_{rnd}"
     sh(f"git -C /repo worktree remove --force {wt}")
     rc, out = sh(f"git -C /repo worktree add -q --detach {wt} HEAD")
     assert rc == 0, out
@@ -73,7 +77,8 @@ def main():
             if not (os.path.exists(patch) and os.path.exists(demo)):
                 print(f"{pid}-{k}: missing files")
                 continue
-            meta = {"property": pid, "id": f"{pid}-{k}", "base_commit": head, "ran": []}
+            fid = f"{pid}-{int(k) + off}"
+            meta = {"property": pid, "id": fid, "round": rnd, "base_commit": head, "ran": []}
             sh("git checkout -q -- . && git clean -fdq", cwd=wt)
             rc0, o0 = sh(f"PYTHONPATH={wt} /venv/bin/python {demo}", cwd=wt, timeout=1800)
             meta["ran"].append({"cmd": "demo on clean tree", "exit": rc0})
@@ -90,7 +95,7 @@ def main():
                 tsum = ot.strip().splitlines()[-1] if ot.strip() else ""
                 tests_ok = bool(re.search(r"\b\d+ passed", tsum)) and not re.search(r"\b\d+ (failed|error)", tsum)
             meta["ran"].append({"cmd": "pytest -q -x (existing suite, change applied)", "summary": tsum})
-            env = dict(ENV, VERIF_REPO=wt)
+            env = dict(ENV, VERIF_REPO=wt, VERIF_VIOL_DIR=f"/tmp/viol_seeded_{pid}_{rnd}")
             t0 = time.time()
             rcc, oc = sh(f"{ROOT}/check {pid} --tier quick --no-evidence", cwd=ROOT, env=env, timeout=7200)
             viol = [l for l in oc.splitlines() if l.startswith("violation in")][:2]
@@ -101,13 +106,13 @@ def main():
             meta["caught_by_quick_check"] = rcc == 1
             notes = open(f"{src}/notes.md").read() if os.path.exists(f"{src}/notes.md") else ""
             meta["needs_to_manifest"] = _section(notes, k)
-            dst = os.path.join(ROOT, "seeded", f"{pid}-{k}")
+            dst = os.path.join(ROOT, "seeded", fid)
             if meta["confirmed"]:
                 os.makedirs(dst, exist_ok=True)
                 shutil.copy(patch, os.path.join(dst, "patch.diff"))
                 shutil.copy(demo, os.path.join(dst, "demo.py"))
                 json.dump(meta, open(os.path.join(dst, "meta.json"), "w"), indent=1)
-            print(f"{pid}-{k}: clean_demo={rc0} changed_demo={rc1} tests={tsum!r} check_exit={rcc} "
+            print(f"{fid}: clean_demo={rc0} changed_demo={rc1} tests={tsum!r} check_exit={rcc} "
                   f"{'CAUGHT' if rcc == 1 else 'MISSED'} confirmed={meta['confirmed']} {viol[:1]}", flush=True)
             sh("git checkout -q -- . && git clean -fdq", cwd=wt)
     finally:
